@@ -639,6 +639,30 @@ func runCollator(id, tier string, seed int64, out *Out) {
 		caseID++
 		pairLine(out, caseID, shared, a, b, J{"mut": true, "fam": "map-every-size"})
 	}
+	// one Go map ranked, changed in place without changing its size (one key deleted, another added; one value
+	// overwritten), and ranked again by the SAME collator: the answer must follow the contents, not the map's identity
+	for n := 1; n <= 12; n++ {
+		m := map[any]any{}
+		for i := 0; i < n; i++ {
+			m[int64(i*3)] = int64(i)
+		}
+		other := rebuild(m)
+		caseID++
+		pairLine(out, caseID, shared, m, other, J{"fam": "map-mutated-in-place", "step": 0})
+		delete(m, int64((n-1)*3))
+		m[int64(1000+n)] = int64(7)
+		caseID++
+		pairLine(out, caseID, shared, m, other, J{"fam": "map-mutated-in-place", "step": 1})
+		m[int64(1000+n)] = int64(8)
+		caseID++
+		pairLine(out, caseID, shared, m, rebuild(m), J{"fam": "map-mutated-in-place", "step": 2})
+		delete(m, int64(1000+n))
+		m[int64(-5)] = int64(9)
+		caseID++
+		pairLine(out, caseID, shared, m, other, J{"fam": "map-mutated-in-place", "step": 3})
+		caseID++
+		pairLine(out, caseID, shared, other, m, J{"fam": "map-mutated-in-place", "step": 4})
+	}
 	// keys that rank Equal without being the identical Go key (ranking only: CompareValues is
 	// not defined across integer widths, which lie outside the canonical universe)
 	for _, pair := range [][2]any{{int(1), int64(1)}, {int8(1), int(1)}, {uint16(7), uint64(7)}, {float32(0.5), float64(0.5)}} {
